@@ -81,6 +81,10 @@ func newFakeEndpoint(script []int) *fakeEndpoint {
 			ep.okBody = append(ep.okBody, string(body))
 		}
 		ep.mu.Unlock()
+		if st == -1 { // hang: keep the request open until the sender gives up (5 s of real time)
+			<-r.Context().Done()
+			return
+		}
 		if st == 0 {
 			if hj, ok := w.(http.Hijacker); ok {
 				if c, _, err := hj.Hijack(); err == nil {
@@ -369,7 +373,7 @@ func checkC10Sched(job *Job, res *Result) {
 // ---------------------------------------------------------------- FAULT
 
 func checkC10Fault(job *Job, res *Result) {
-	res.Rule = "FAULT: one webhook on a scripted local HTTP endpoint; all answer scripts of length <= L over {200, 201, 500, refuse} x 3 write patterns (burst of 3, one per retry period, burst of 20 behind a failing endpoint); virtual time passes in 0.6 s steps until the queue is drained; distinct = distinct (script, pattern) with their delivery traces"
+	res.Rule = "FAULT: one webhook on a scripted local HTTP endpoint; all answer scripts of length <= L over {200, 201, 500, refuse} (+ scripts with a hanging request: 1 quick, all of length <= 2 thorough) x 3 write patterns (burst of 3, one per retry period, burst of 20 behind a failing endpoint); virtual time passes in 0.6 s steps until the queue is drained; distinct = distinct (script, pattern) with their delivery traces"
 	maxLen := 3
 	if job.Tier == "thorough" {
 		maxLen = 5
@@ -390,10 +394,22 @@ func checkC10Fault(job *Job, res *Result) {
 		}
 	}
 	gen(nil)
+	// "hang": the endpoint takes the request and never answers; the sender's 5 s
+	// timeout is real time (net/http is not under the virtual clock), so these
+	// scripts are few: one in the quick tier, all of length <= 2 in the thorough tier
+	if job.Tier == "thorough" {
+		for _, a := range []int{200, 201, 500, 0, -1} {
+			scripts = append(scripts, []int{-1, a}, []int{a, -1})
+		}
+	}
+	scripts = append(scripts, []int{-1})
 	patterns := []string{"burst3", "spaced3", "burst20"}
 	caseNo := 0
 	for _, script := range scripts {
 		for _, pat := range patterns {
+			if len(script) > 0 && (script[0] == -1 || script[len(script)-1] == -1) && pat != "burst3" {
+				continue
+			}
 			if pat == "burst20" && (len(script) == 0 || script[0] == 200 || script[0] == 201 || len(script) > 3) {
 				continue // the backlog pattern only makes sense behind an endpoint that starts failing
 			}
